@@ -211,3 +211,59 @@ Proof.
   intros Hp Hind Hnl Hts Hfv d' Hp'.
   rewrite (idempotent_document_total fl fl' s d d' ind Hp Hind Hnl Hts Hfv Hp'). exact Hp'.
 Qed.
+
+(* ------------------------------------------------------------------ the guard is exact *)
+Lemma omap_none {A B} (h : A -> B) o : option_map h o = None -> o = None.
+Proof. destruct o; [discriminate|reflexivity]. Qed.
+
+Lemma strip_forget_iv i : strip_ivdef (forget_iv i) = strip_ivdef i -> iv_desc i = None.
+Proof. unfold strip_ivdef, forget_iv. simpl. intros H. injection H as H. symmetry in H. eapply omap_none; eassumption. Qed.
+
+Lemma strip_forget_ev e : strip_evdef (forget_ev e) = strip_evdef e -> ev_desc e = None.
+Proof. unfold strip_evdef, forget_ev. simpl. intros H. injection H as H. symmetry in H. eapply omap_none; eassumption. Qed.
+
+Lemma map_strip_forget {A} (st : A -> A) (fg : A -> A) (P : A -> Prop) l :
+  (forall x, st (fg x) = st x -> P x) -> map st (map fg l) = map st l -> Forall P l.
+Proof.
+  intros HP. induction l as [|x l IH]; simpl; intros H; [constructor|].
+  injection H as H1 H2. constructor; auto.
+Qed.
+
+Lemma strip_forget_fd f : strip_fdef (forget_fd f) = strip_fdef f -> nodesc_fdef f.
+Proof.
+  unfold strip_fdef, forget_fd, nodesc_fdef. simpl. intros H. injection H as H1 H2. split.
+  - symmetry in H1. eapply omap_none; eassumption.
+  - eapply (map_strip_forget strip_ivdef forget_iv); [apply strip_forget_iv|exact H2].
+Qed.
+
+Lemma strip_forget_def d : strip_def (forget_def d) = strip_def d -> member_desc_free d.
+Proof.
+  destruct d; simpl; intros H; try exact I; injection H as H.
+  - eapply (map_strip_forget strip_fdef forget_fd); [apply strip_forget_fd|eassumption].
+  - eapply (map_strip_forget strip_fdef forget_fd); [apply strip_forget_fd|eassumption].
+  - eapply (map_strip_forget strip_evdef forget_ev); [apply strip_forget_ev|eassumption].
+  - eapply (map_strip_forget strip_ivdef forget_iv); [apply strip_forget_iv|eassumption].
+  - eapply (map_strip_forget strip_ivdef forget_iv); [apply strip_forget_iv|eassumption].
+Qed.
+
+Lemma strip_forget_doc d :
+  strip_doc (forget_member_descriptions d) = strip_doc d -> no_member_descriptions d.
+Proof.
+  unfold strip_doc, forget_member_descriptions, no_member_descriptions. simpl. intros H. injection H as H.
+  eapply (map_strip_forget strip_def forget_def); [apply strip_forget_def|exact H].
+Qed.
+
+(* Property C03 holds of an accepted document exactly when it carries no member
+   description: the guard of the closed theorems cannot be weakened, and nothing
+   else ever breaks the round trip. *)
+Theorem roundtrip_iff fl fl' s d ind :
+  parse_document fl s = Ok d -> all_ws ind ->
+  no_location fl' = true -> allow_type_system fl' = true ->
+  (fragment_variables fl = true -> fragment_variables fl' = true) ->
+  (parse_document fl' (print_ast ind true d) = Ok (strip_doc d) <-> no_member_descriptions d).
+Proof.
+  intros Hp Hind Hnl Hts Hfv. split.
+  - intros H. rewrite (roundtrip_document_total fl fl' s d ind Hp Hind Hnl Hts Hfv) in H.
+    apply strip_forget_doc. congruence.
+  - intros Hm. apply (roundtrip_document_closed fl fl' s d ind); assumption.
+Qed.
